@@ -29,6 +29,16 @@ PROPS = {
         not_covered=["that [h_eff]P has order dividing r (A4: group orders)"],
         assumptions=[A['A3'], A['A4'], "contracts of CurveProjective::{double, add_assign, sub_assign, is_zero, ...} are assumed in this unit; they are the statements of the C01 unit lifted through A3", A['TOOLS']],
     ),
+    'C12': dict(
+        units_quick=['finalexp', 'tower'], units_thorough=['finalexp', 'tower'], timeout=300,
+        claim="Bls12::final_exponentiation (real body): returns None exactly for f = 0 and otherwise f^E with E = 3(q^12-1)/r: the exponent accumulated "
+              "by the real statements (conjugate, inverse, Frobenius 1..3, squarings, exp_by_x with the crate's BLS_X) is tracked as an integer and "
+              "shown congruent to E modulo q^12-1; the Fq12 operations it calls are the contracts proved for the real tower code in unit `tower`. "
+              "Multiplicativity, image in mu_r and triviality on proper subfields are arithmetic corollaries of the exponent (not separate obligations).",
+        not_covered=["that conjugation / the coefficient-wise Frobenius maps are x -> x^(q^k) (A5')", "Lagrange in Fq12* (A7)",
+                     "ff's generic Field::pow (contract assumed here: pow(x,[e]) = x^e; it is C08's obligation)"],
+        assumptions=[A['A5p'], A['A7'], "laws of f12pow in specs/f12pow.vrs (ring theory of the commutative ring of specs/tower.vrs)", A['D_FQ'], A['TOOLS']],
+    ),
 }
 
 HOOK_COMMITS = []
